@@ -83,6 +83,81 @@ def performHandshake (self : Identity) (powBits : Nat) (peerId : List UInt8) (re
   else if !Pow.nodeVerifyHandshake sha powBits ⟨peerId, self.peerId, remotePublic⟩ remoteNonce then none
   else some (sessionKey sha hmac self.scalar self.pub remotePublic)
 
+/-! ### the node's tables across a history of handshakes
+
+`KeyManager::contexts_` (peer id ↦ current session key) and `Node::handshake_state_` (peer id ↦ last
+`HandshakeRecord`) as association lists; `put` is `map[key] = value` (insert **or replace**). -/
+
+/-- `map.find(key)` -/
+def get {β : Type} : List (List UInt8 × β) → List UInt8 → Option β
+  | [], _ => none
+  | (q, v) :: rest, p => if q = p then some v else get rest p
+
+/-- `map[key] = value`: the new entry shadows (replaces) any earlier one -/
+def put {β : Type} (l : List (List UInt8 × β)) (p : List UInt8) (v : β) : List (List UInt8 × β) := (p, v) :: l
+
+/-- `Node::HandshakeRecord` -/
+structure HsRecord where
+  lastAttempt : Int
+  remotePublic : Nat
+  remoteNonce : Nat
+  success : Bool
+deriving Repr, Inhabited
+
+/-- what `perform_handshake` reads and writes -/
+structure NodeState where
+  self : Identity
+  /-- `config_.handshake_pow_difficulty` as configured (the cap is applied by `nodeVerifyHandshake`) -/
+  bits : Nat
+  /-- `config_.handshake_cooldown` in nanoseconds -/
+  cooldown : Int
+  keys : List (List UInt8 × List UInt8) := []
+  records : List (List UInt8 × HsRecord) := []
+deriving Inhabited
+
+def NodeState.fresh (self : Identity) (bits : Nat) (cooldown : Int) : NodeState := { self, bits, cooldown }
+
+/-- `Node::session_key(peer)` = `KeyManager::current_key` -/
+def NodeState.sessionKeyOf (s : NodeState) (peer : List UInt8) : Option (List UInt8) := get s.keys peer
+
+/-- the cooldown short-circuit: only an exact repeat of the validated handshake skips validation -/
+def repeatOfValidated (s : NodeState) (now : Int) (peer : List UInt8) (pub nonce : Nat) : Bool :=
+  match get s.records peer with
+  | some r => r.success && decide (now - r.lastAttempt < s.cooldown) && r.remotePublic == pub && r.remoteNonce == nonce
+  | none => false
+
+/-- `Node::perform_handshake(peer, remote_public_key, remote_work_nonce)` at steady-clock time `now` -/
+def performHandshakeSt (s : NodeState) (now : Int) (peer : List UInt8) (pub nonce : Nat) : NodeState × Bool :=
+  if repeatOfValidated s now peer pub nonce then (s, true)
+  else if !validatePublic pub then
+    ({ s with records := put s.records peer ⟨now, pub, nonce, false⟩ }, false)
+  else if !Pow.nodeVerifyHandshake sha s.bits ⟨peer, s.self.peerId, pub⟩ nonce then
+    ({ s with records := put s.records peer ⟨now, pub, nonce, false⟩ }, false)
+  else
+    ({ s with keys := put s.keys peer (sessionKey sha hmac s.self.scalar s.self.pub pub),
+              records := put s.records peer ⟨now, pub, nonce, true⟩ }, true)
+
+/-- one inbound handshake of a history -/
+structure Call where
+  now : Int
+  peer : List UInt8
+  pub : Nat
+  nonce : Nat
+deriving Repr, Inhabited
+
+/-- a history of inbound handshakes: final state and the verdict of every call -/
+def runCalls (s : NodeState) : List Call → NodeState × List (Call × Bool)
+  | [] => (s, [])
+  | c :: cs =>
+    let r := performHandshakeSt sha hmac s c.now c.peer c.pub c.nonce
+    let rest := runCalls r.1 cs
+    (rest.1, (c, r.2) :: rest.2)
+
+/-- the public key offered in the last accepted handshake claiming `peer` (starting from `init`) -/
+def lastAccepted (init : Option Nat) (peer : List UInt8) : List (Call × Bool) → Option Nat
+  | [] => init
+  | (c, ok) :: es => lastAccepted (if ok && decide (c.peer = peer) then some c.pub else init) peer es
+
 end
 
 end EphVerif.Kex
